@@ -7,7 +7,7 @@ import re
 from .lib import decision, guards, paths
 from .lib.mir import AnchorLost
 
-CONFIGS_QUICK = ["A"]
+CONFIGS_QUICK = ["A", "R"]
 CONFIGS_THOROUGH = ["A", "R", "NOAPI"]
 TECHNIQUE = ("sibling-family rules over the impl table (absolute rule per member + agreement with the member's arity) and dominance rules on FangActionProc::bite's "
              "coroutine; must-alias value flow with variant tracking over the combinator-expanded MIR of the router's search")
@@ -392,8 +392,11 @@ def c04f(ck, prog):
         ck.ob(R, "merge_here:appends-fangs-first", False, mh.loc(None), "merge_here appends to its own fang lists %d times" % len(af))
     # apply_fangs reaches every node: children first, then the node itself, unconditionally
     ap = prog.method(NODE, "apply_fangs")
+    apkey = ap.key
+    if not [c for c in ap.calls() if c.callee == apkey]:
+        ap = prog.flattened(ap, r"base::Node::apply_fangs$", combinators=True)       # `children.iter_mut().for_each(|c| c.apply_fangs(..))`
     add = ap.calls_to(r"FangsList::add$")
-    rec = [c for c in ap.calls() if c.callee == ap.key]
+    rec = [c for c in ap.calls() if c.callee == apkey]
     ok = len(add) == 1 and len(rec) == 1 and all(ap.dominates(add[0].bb, r) for r in ap.exits()) and not [fa for fa in guards.facts_at(ap, prog, add[0].bb) if fa.kind in ("cmp", "boolcall", "boolplace") or (fa.kind == "variant" and fa.allowed == {"Some"} and "handler" in guards.describe_origin(ap, fa.steps))]
     ck.ob(R, "apply_fangs:every-node", ok, ap.loc(None), "" if ok else "Node::apply_fangs does not add the fangs to every node of the subtree (also handler-less ones, which serve the 404s)", how="recurse into children; self.fangses.add(id, fangs) unconditionally")
     # ... in every per-method tree the router serves requests from: the fields of base::Router that are routing trees
